@@ -60,7 +60,7 @@ func (p *searchPath) String() string {
 
 type param struct {
 	name    string
-	namePos token.LnColPos
+	namePos token.LnColPos // call site in the root script that is being followed
 
 	allNg    map[string]*runtime.Script
 	retMap   map[string]*runtime.Script
@@ -97,31 +97,38 @@ func dfs(name string, procc *runtime.Script, sPath *searchPath, p *param) error 
 	}
 
 	if _, ok := p.retMap[name]; ok {
+		// already linked: it must not stay on the search path,
+		// reaching it again along another path is not a cycle
+		sPath.Pop()
 		return nil
 	}
 
 	for _, expr := range procc.CallRef {
 		cName, err := getParamRefScript(expr)
-		p.namePos = expr.NamePos
+		if len(sPath.path) == 1 {
+			// a cycle is reported against the root script, at the call that leads into it
+			p.namePos = expr.NamePos
+		}
 		if err != nil {
 			return err
 		}
 
+		// every frame reports the position of its own call, not of the innermost one
 		if cNg, ok := p.allNg[cName]; !ok {
 			if err, ok := p.allErrNg[cName]; ok {
 				if e, ok := err.(*errchain.PlError); ok {
 					return e.Copy().ChainAppend(
-						procc.Name, p.namePos)
+						procc.Name, expr.NamePos)
 				}
 				return err
 			}
-			return errchain.NewErr(procc.Name, p.namePos,
+			return errchain.NewErr(procc.Name, expr.NamePos,
 				fmt.Sprintf("script %s not found", cName))
 		} else {
 			expr.PrivateData = cNg
 			if err := dfs(cName, cNg, sPath, p); err != nil {
 				if e, ok := err.(*errchain.PlError); ok {
-					return e.Copy().ChainAppend(procc.Name, p.namePos)
+					return e.Copy().ChainAppend(procc.Name, expr.NamePos)
 				}
 				return err
 			}
